@@ -38,10 +38,7 @@ WORKER = Path(__file__).resolve().parent / "c03_worker.py"
 FUEL = 8
 
 KF_ORDER = "C03-request-order-set-iteration"
-KF_FILTER = "C03-flag-lost-filter-feature"
-KF_INDEX = "C03-flag-lost-index-feature"
 KF_SUBCOL = "C03-subcolumn-request-normalised"
-KF_DUP = "C03-request-order-duplicate-column"
 KF_ORPHAN = "C03-filter-feature-on-derived-group-unlinked"
 
 # ------------------------------------------------------------------------------------------------------------
@@ -223,13 +220,11 @@ Definition res_eqb (m o : result) : bool :=
 (* identify_naming_convention: (iteration order of the FeatureName set, columns, ordering), observed result *)
 Definition chk_ident (c : (list string * list string * ordering) * result) : bool :=
   let '((it, cols, o), r) := c in res_eqb (identify it cols o) r.
-(* in-situ call with request_order inside the known-defect domain: the faithful model, or the repaired behaviour
-   (blocks in the order of the request list [rq], each column once) *)
+(* in-situ call with request_order inside the known-defect domain (the names travel as a set): the faithful model, or
+   the repaired behaviour (blocks in the order of the request list [rq]) *)
 Definition chk_ident_kf (c : (list string * list string * list string) * result) : bool :=
   let '((it, cols, rq), r) := c in
-  res_eqb (identify it cols ORequest) r || res_eqb (identify rq cols ORequest) r
-  || res_eqb (match identify rq cols ORequest with RList l => RList (dedup_first l) | x => x end) r
-  || res_eqb (match identify it cols ORequest with RList l => RList (dedup_first l) | x => x end) r.
+  res_eqb (identify it cols ORequest) r || res_eqb (identify rq cols ORequest) r.
 Definition chk_name (c : (string * list string) * (string * string)) : bool :=
   let '((n, sup), (b, nw)) := c in String.eqb (base_feature n) b && String.eqb (set_feature_name sup n) nw.
 
@@ -257,10 +252,6 @@ Definition coll_eqb (a b : list feature) : bool :=
   && Nat.eqb (List.length a) (List.length b).
 Definition trace_eqb (a b : list (feature * bool)) : bool :=
   list_eqb (fun x y => feat_eqb (fst x) (fst y) && Bool.eqb (snd x) (snd y)) a b.
-(* repaired variant tolerated inside the flag-lost domain: the stored feature carries the flag of any equal call *)
-Definition fix_flags (coll : list feature) (tr : list (feature * bool)) : list feature :=
-  map (fun f => if existsb (fun p => feq (fst p) f && fflag (fst p)) tr
-                then {{| fgrp := fgrp f; fname := fname f; fkey := fkey f; fflag := true |}} else f) coll.
 Definition asked_of (coll : list feature) : list string := sort_str (map fname (filter fflag coll)).
 Definition agree (st : pstate) (coll : list feature) (tr : list (feature * bool)) (coll_o : list feature)
                  (asked : option (list string)) : bool :=
@@ -271,28 +262,13 @@ Definition chk_process (c : proc_case) : bool :=
   let '(d, rq, tr, coll_o, asked) := c in
   let st := process_request {FUEL} (mk_env true d) rq in
   agree st (fst st) tr coll_o asked.
-(* the same with the repaired variants accepted, each only where its known-defect domain applies *)
+(* the same with the repaired variant accepted where the sub-column domain applies (no rewriting of name~x) *)
 Definition chk_process_kf (c : proc_case) : bool :=
   let '(d, rq, tr, coll_o, asked) := c in
   let st := process_request {FUEL} (mk_env true d) rq in
   let st' := process_request {FUEL} (mk_env false d) rq in
   let sub := existsb (fun n => kf_subcolumn (assoc_nat [] (assoc_str 99 (base_feature n) gtab) suptab) n) rq in
-  agree st (fst st) tr coll_o asked
-  || (kf_flag_lost (map fst (snd st)) && agree st (fix_flags (fst st) (snd st)) tr coll_o asked)
-  || (sub && (agree st' (fst st') tr coll_o asked
-              || (kf_flag_lost (map fst (snd st')) && agree st' (fix_flags (fst st') (snd st')) tr coll_o asked))).
-(* classification: is requested name r dropped by the faithful model (its stored feature is unflagged)? *)
-Definition lost_in (e : genv) (rq : list string) (r : string) : bool :=
-  let st := process_request {FUEL} e rq in
-  let g := group_of e r in
-  let nm := set_feature_name (supported e g) r in
-  kf_flag_lost (map fst (snd st))
-  && negb (existsb (fun f => Nat.eqb (fgrp f) g && String.eqb (fname f) nm && fflag f) (fst st)).
-Definition no_filters (d : envdata) : envdata := let '(inp, _, lnk) := d in (inp, None, lnk).
-Definition chk_not_lost (c : envdata * list string * string) : bool :=
-  let '(d, rq, r) := c in negb (lost_in (mk_env true d) rq r).
-Definition chk_not_lost_by_index (c : envdata * list string * string) : bool :=
-  let '(d, rq, r) := c in negb (lost_in (mk_env true (no_filters d)) rq r).
+  agree st (fst st) tr coll_o asked || (sub && agree st' (fst st') tr coll_o asked).
 (* a filter feature newly stored in a derived group (it is never linked to the group's inputs) *)
 Definition orphan_filter (e : genv) (rq : list string) : bool :=
   existsb (fun p => snd p && negb (fflag (fst p)) && Nat.eqb (fkey (fst p)) 0
@@ -300,19 +276,10 @@ Definition orphan_filter (e : genv) (rq : list string) : bool :=
                     && match filters_for e (fgrp (fst p)) with Some l => mem_str (fname (fst p)) l | None => false end)
           (snd (process_request 8 e rq)).
 Definition chk_no_orphan (c : envdata * list string) : bool := negb (orphan_filter (mk_env true (fst c)) (snd c)).
-Definition chk_no_overlap (c : list string * list string) : bool := negb (kf_overlap (fst c) (snd c)).
 """
-# dedup_first is needed by chk_ident_kf; define before use
-EXTRA = """
-Fixpoint dedup_first_aux (seen l : list string) : list string :=
-  match l with [] => [] | x :: t => if mem_str x seen then dedup_first_aux seen t else x :: dedup_first_aux (x :: seen) t end.
-Definition dedup_first (l : list string) : list string := dedup_first_aux [] l.
-""" + EXTRA
-
 IDENT_TY = "(list string * list string * ordering) * result"
 IDENT_KF_TY = "(list string * list string * list string) * result"
 NAME_TY = "(string * list string) * (string * string)"
-LOST_TY = "envdata * list string * string"
 
 
 def ident_term(c: dict) -> str:
@@ -496,10 +463,8 @@ def run(rep: vlib.Reporter, tier: str, seed: int) -> None:
             raised.append(c)
             continue
         # returned tables are exactly what the identify calls produced (observation consistency, python side)
-        # (a python-dict table cannot hold one key twice: a duplicated name in the selection collapses there)
-        collapse = dedup if cfg["fw"] == "pydict" else list
         got = sorted(json.dumps(sorted(t) if c["ordering"] is None else t) for t in c["tables"])
-        via = sorted(json.dumps(collapse(k["res"])) for k in c["calls"] if k["kind"] != "err")
+        via = sorted(json.dumps(k["res"]) for k in c["calls"] if k["kind"] != "err")
         if got != via:
             rep.finding(f"tables-vs-calls:{c['cfg']}:{c['req']}:{c['ordering']}",
                         f"returned tables {c['tables']} are not the results of the identify_naming_convention calls {via}",
@@ -587,27 +552,13 @@ def run(rep: vlib.Reporter, tier: str, seed: int) -> None:
             found = True
 
     # ---------------- classification of the runs that violate the statement
-    # 1. missing features: inside the flag-lost domain iff the faithful model loses exactly that name
-    lost_q: Dict[str, Tuple[str, dict, str]] = {}
-    for c, fails in failing:
-        if "env" not in c:
-            continue
-        for f in fails:
-            if f["kind"] == "missing":
-                t = f"({env_term(c['env'])}, {cq_strs(c['req'])}, {cq_str(f['feature'])})"
-                lost_q.setdefault(t, (t, c, f["feature"]))
-    lq = list(lost_q.values())
-    in_lost = set(vlib.run_cases("C03", "kf_lost", REQ, "chk_not_lost", [t for t, _, _ in lq], case_type=LOST_TY, extra_defs=EXTRA, shard=400)[0]) if lq else set()
-    by_index = set(vlib.run_cases("C03", "kf_lost_idx", REQ, "chk_not_lost_by_index", [t for t, _, _ in lq], case_type=LOST_TY, extra_defs=EXTRA, shard=400)[0]) if lq else set()
-    lost_class = {lq[i][0]: ("index" if i in by_index else "filter") for i in in_lost}
-    # 2. duplicates: inside the overlap domain iff kf_overlap on the names asked in that call
-    counts = {KF_ORDER: 0, KF_FILTER: 0, KF_INDEX: 0, KF_SUBCOL: 0, KF_DUP: 0, "violation": 0}
+    counts = {KF_ORDER: 0, KF_SUBCOL: 0, "violation": 0}
     first: Dict[str, dict] = {}
     reported = 0
     for c, fails in failing:
         cfg = cfg_by_id[c["cfg"]]
         for f in fails:
-            key = classify(c, f, lost_class)
+            key = classify(c, f)
             if key is None:
                 counts["violation"] += 1
                 if reported < 8:
@@ -645,22 +596,16 @@ def normalise(name: str) -> str:
     return base if base != name and base in g.get("supported", []) else name
 
 
-def classify(c: dict, f: dict, lost_class: Dict[str, str]) -> Optional[str]:
+def classify(c: dict, f: dict) -> Optional[str]:
     """Known-finding key if the failure lies inside one of the narrowly defined known-defect domains, else None."""
     req, ordering = c["req"], c["ordering"]
     sub_reqs = [r for r in req if "~" in r and normalise(r) != r]
-    if f["kind"] == "missing" and "env" in c:
-        t = f"({env_term(c['env'])}, {cq_strs(req)}, {cq_str(f['feature'])})"
-        cls = lost_class.get(t)
-        return {"index": KF_INDEX, "filter": KF_FILTER}.get(cls) if cls else None
+    # a missing feature (request flag lost: fixed by 069fedf) or a duplicated column (fixed by 990998a) is never tolerated
     if f["kind"] == "extra":
         # a sibling column of a requested sub-column whose base name is in feature_names_supported()
         if any(f["column"].startswith(normalise(r) + "~") for r in sub_reqs):
             return KF_SUBCOL
         return None
-    if f["kind"] == "duplicate":
-        owners = [n for n in dedup([normalise(r) for r in req]) if f["column"] == n or f["column"].startswith(n + "~")]
-        return KF_DUP if ordering == "request_order" and len(owners) >= 2 else None
     if f["kind"] == "not-request-order":
         asked = [k for k in c["calls"] if set(k["res"]) == set(f["got"])]
         if ordering == "request_order" and any(len(k["iter"]) >= 2 for k in asked):
